@@ -6,6 +6,7 @@ package main
 import (
 	"encoding/json"
 	"fmt"
+	"golang.org/x/tools/go/ssa"
 	"os"
 	"path/filepath"
 	"sort"
@@ -22,6 +23,10 @@ type PropMap struct {
 	Trusted    []string `json:"trusted"`
 	Bounded    []string `json:"bounded"`
 	Claim      string   `json:"claim"`
+	// AutoCallers: every function that invokes one of these interface methods
+	// (e.g. "net.Conn.Write") is added to the units, so that a new call site is
+	// covered without editing the map.
+	AutoCallers []string `json:"auto_callers"`
 }
 
 type Finding struct {
@@ -121,7 +126,7 @@ func (e *Engine) checkProperty(verif, prop, tier string, t0 time.Time) int {
 	names := append([]string{}, p.Units...)
 	missing := []string{}
 	if p.Sweep {
-		names = e.funcNames()
+		names = e.sweepRoots()
 	} else {
 		var keep []string
 		for _, n := range names {
@@ -132,6 +137,19 @@ func (e *Engine) checkProperty(verif, prop, tier string, t0 time.Time) int {
 			keep = append(keep, n)
 		}
 		names = keep
+	}
+	for _, ac := range p.AutoCallers {
+		for _, n := range e.callersOf(ac) {
+			have := false
+			for _, x := range names {
+				if x == n {
+					have = true
+				}
+			}
+			if !have {
+				names = append(names, n)
+			}
+		}
 	}
 	opts := SolveOpts{TimeoutMs: 5000, RecheckMs: 10000}
 	if tier == "thorough" {
@@ -218,6 +236,17 @@ func (e *Engine) checkProperty(verif, prop, tier string, t0 time.Time) int {
 			if o.Cand >= 0 {
 				continue
 			}
+			if len(p.Only) > 0 {
+				keep := false
+				for _, k := range p.Only {
+					if o.Kind == k {
+						keep = true
+					}
+				}
+				if !keep {
+					continue
+				}
+			}
 			total++
 			if o.Status == "unsat" {
 				discharged++
@@ -261,23 +290,23 @@ func (e *Engine) checkProperty(verif, prop, tier string, t0 time.Time) int {
 	ev := Evidence{PropertyID: prop, Tier: tier, Seed: seed, Level: "proof", Assumptions: assumptions,
 		WallS: round3(time.Since(t0).Seconds()), Violations: violations}
 	ev.Coverage = map[string]interface{}{
-		"obligations":              total,
-		"discharged":               discharged,
-		"checker_cmd":              fmt.Sprintf("/verif/bin/cbv check -prop %s -tier %s (go/ssa VC generation over /repo working tree with -tags=verif; z3-new/z3/cvc5)", prop, tier),
-		"trusted_base":             append([]string{"go/ssa (x/tools v0.29.0)", "cbv SSA->SMT translation", "z3 5.1.0", "z3 4.8.12", "cvc5 1.0.3", "assumed extern contracts in /verif/spec/externs.spec"}, p.Trusted...),
-		"functions_under_contract": funcsUnderContract,
-		"functions_safety_only":    funcsSafetyOnly,
-		"obligations_by_backend":   byBackend,
-		"solver_time_s":            round3(solverTotal),
-		"solver_time_max_s":        round3(solverMax),
-		"known_findings":           knownOut,
+		"obligations":               total,
+		"discharged":                discharged,
+		"checker_cmd":               fmt.Sprintf("/verif/bin/cbv check -prop %s -tier %s (go/ssa VC generation over /repo working tree with -tags=verif; z3-new/z3/cvc5)", prop, tier),
+		"trusted_base":              append([]string{"go/ssa (x/tools v0.29.0)", "cbv SSA->SMT translation", "z3 5.1.0", "z3 4.8.12", "cvc5 1.0.3", "assumed extern contracts in /verif/spec/externs.spec"}, p.Trusted...),
+		"functions_under_contract":  funcsUnderContract,
+		"functions_safety_only":     funcsSafetyOnly,
+		"obligations_by_backend":    byBackend,
+		"solver_time_s":             round3(solverTotal),
+		"solver_time_max_s":         round3(solverMax),
+		"known_findings":            knownOut,
 		"known_finding_obligations": len(knownOut),
-		"bounded_standins":         p.Bounded,
-		"not_decided":              p.NotDecided,
-		"houdini_candidates":       candTotal,
-		"vacuity":                  map[string]int{"cover_checks": covers, "passed": coversOK},
-		"samples":                  samples,
-		"claim":                    p.Claim,
+		"bounded_standins":          p.Bounded,
+		"not_decided":               p.NotDecided,
+		"houdini_candidates":        candTotal,
+		"vacuity":                   map[string]int{"cover_checks": covers, "passed": coversOK},
+		"samples":                   samples,
+		"claim":                     p.Claim,
 	}
 	os.MkdirAll(filepath.Join(verif, "evidence"), 0o755)
 	b, _ := json.MarshalIndent(ev, "", " ")
@@ -297,3 +326,77 @@ func (e *Engine) checkProperty(verif, prop, tier string, t0 time.Time) int {
 func round3(f float64) float64 { return float64(int(f*1000+0.5)) / 1000 }
 
 // replayModel is filled in by replay.go
+
+// sweepRoots: every function of the package that is a verification root: all
+// top-level functions and methods, closures with their own contract, closures
+// started with `go`. Other closures are checked where they are inlined (every
+// call, defer and sync.Once.Do of them is inside their parent).
+func (e *Engine) sweepRoots() []string {
+	goTargets := map[*ssa.Function]bool{}
+	for _, fn := range e.funcs {
+		for _, b := range fn.Blocks {
+			for _, in := range b.Instrs {
+				if g, ok := in.(*ssa.Go); ok {
+					switch v := g.Common().Value.(type) {
+					case *ssa.MakeClosure:
+						goTargets[v.Fn.(*ssa.Function)] = true
+					case *ssa.Function:
+						goTargets[v] = true
+					}
+				}
+			}
+		}
+	}
+	var out []string
+	for _, n := range e.funcNames() {
+		fn := e.funcs[n]
+		c := e.spec.Contracts[n]
+		modular := c != nil && (len(c.Ensures) > 0 || len(c.Requires) > 0 || c.HasMod || c.Trusted)
+		if fn.Parent() != nil && !modular && !goTargets[fn] {
+			continue // inlined wherever it is called (loop annotations, if any, apply there)
+		}
+		if strings.HasPrefix(n, "init") {
+			continue
+		}
+		out = append(out, n)
+	}
+	out = append(out, "bv:attrsBitmap")
+	return out
+}
+
+// callersOf lists the root functions containing an invoke of iface.method
+// (closures are attributed to their nearest root).
+func (e *Engine) callersOf(key string) []string {
+	roots := map[string]bool{}
+	for _, r := range e.sweepRoots() {
+		roots[r] = true
+	}
+	out := map[string]bool{}
+	for n, fn := range e.funcs {
+		for _, b := range fn.Blocks {
+			for _, in := range b.Instrs {
+				ci, ok := in.(ssa.CallInstruction)
+				if !ok || !ci.Common().IsInvoke() {
+					continue
+				}
+				c := ci.Common()
+				if e.typeName(c.Value.Type())+"."+c.Method.Name() != key {
+					continue
+				}
+				f := fn
+				name := n
+				for !roots[name] && f.Parent() != nil {
+					f = f.Parent()
+					name = e.shortName(f)
+				}
+				out[name] = true
+			}
+		}
+	}
+	var res []string
+	for n := range out {
+		res = append(res, n)
+	}
+	sort.Strings(res)
+	return res
+}
